@@ -720,7 +720,7 @@ def project_modes(obs, u, w, labels, n_modes, fallback):
         if ch is not None:
             idx = ch["idx"]
             pw = wn[grp]
-            resok = bool(np.ndim(ch["a"]) == 0 and int(ch["a"]) == len(grp) and idx.shape == (4 * len(grp),) and np.all(pw[idx] > 0)
+            resok = bool(np.ndim(ch["a"]) == 0 and int(ch["a"]) == len(grp) and idx.ndim == 1 and len(idx) >= 1 and np.all(pw[idx] > 0)
                          and np.array_equal(f["data"], np.asarray(u)[grp][idx]))
         m["modes"].append({"raw": dof_class(raw), "stored": dof_class(stored), "isfb": bool(stored == fallback),
                            "israw": bool(stored == raw), "meanok": _same_bits(np.asarray(ms.means[j], dtype=float), mean),
